@@ -683,7 +683,9 @@ class Statement(metaclass=classes):
         if label is None:
             return tab
         s = str(label)
-        if isfix:
+        if isfix and len(s) < 5:
+            # A label lives in columns 1-5: a five-digit label has no room
+            # for a leading blank (column 6 is the continuation column).
             s = " " + s
         tab = tab[len(s) :]
         if not tab:
